@@ -23,7 +23,7 @@ NOT_BINDER_LIT = {"_": "wildcard pattern", "'_": "anonymous lifetime", "'static"
 def run(tier):
     rep = Report("C25", LEVEL, tier)
     rep.explanation = EXPLANATION
-    rep.not_decided = "hygiene of unprefixed local binders inside emitted function bodies; the prefix search itself (parser::parse_grammar)"
+    rep.not_decided = "hygiene of unprefixed local binders inside emitted function bodies"
     rep.trusted = ["syn parse of the normalisation passes", "call-chain extraction (tmplfacts)"]
     f = core.Facts(core.ensure_facts())
     T = f.tmpl
@@ -74,4 +74,102 @@ def run(tier):
                "function with the user's grammar parameters (e.g. `grammar(%s: u32)` plus a `+`/`*` repetition binds `%s` twice: E0415)" % (v, v, v),
                key="synth-binding:%s:%s" % (l["fn"].split("::")[-1], v), file=l["file"], line=l["line"], fn=l["fn"])
     rep.floor("synthesised-name sites", n, 6)
+    prefix_search(rep, f)
+    escape_injective(rep, f)
     return rep
+
+
+def escape_injective(rep, f):
+    """util::Escape turns derived nonterminal names (`Num*`, `(<A> ",")+`) into identifiers for the recursive-ascent
+    generator. Distinct names must give distinct identifiers, also against user names that look like an escaped name:
+    the character that introduces an escape sequence must never be copied verbatim."""
+    arms = [m for m in f.tmpl.macros if m["fn"].startswith("<Escape<") and m["fn"].endswith("as Display>::fmt") and m["macro"] in ("write", "writeln")
+            and any(g["kind"] == "match" for g in m["guards"])]
+    if not arms:
+        rep.anchor_missing("match arms of <Escape<S> as Display>::fmt")
+        return
+    intro = set()
+    for m in arms:
+        mm = re.match(r"^([^{}])\{[^}]*\}$", m["fmt"] or "")
+        if mm and m["args"]:
+            intro.add(mm.group(1))
+    rep.floor("escape-sequence arms in Escape::fmt", len(intro), 1)
+    for m in arms:
+        g = [x for x in m["guards"] if x["kind"] == "match"][-1]
+        var = g["cond"].strip()
+        verbatim = (m["fmt"] or "") == "{%s}" % var or ((m["fmt"] or "") == "{}" and len(m["args"]) == 1 and m["args"][0]["expr"].strip() == var)
+        if not verbatim:
+            continue
+        covered = set()
+        for alt in g["pat"].split("|"):
+            alt = alt.strip()
+            r = re.match(r"^'(.)'\s*\.\.=\s*'(.)'$", alt)
+            if r:
+                covered |= {ch for ch in intro if r.group(1) <= ch <= r.group(2)}
+            elif re.match(r"^'(.)'$", alt):
+                covered |= {alt[1]} & intro
+            else:
+                covered |= intro       # wildcard / binding / guard we cannot read: assume it covers the introducer
+        rep.ob("escape.introducer-never-verbatim", "Escape::fmt arm `%s` copies the character; escape introducer(s) %s" % (g["pat"], sorted(intro)), not covered,
+               "Escape copies its own escape introducer %s verbatim: the user nonterminal `Num_2a` and the derived nonterminal `Num*` (escaped `Num_2a`) get the same "
+               "identifier in the recursive-ascent output (duplicate enum variant)" % sorted(covered), key="escape:introducer-verbatim",
+               file=m["file"], line=m["line"], fn=m["fn"])
+
+
+def prefix_search(rep, f):
+    """The internal prefix is unique because parse_grammar extends it until it occurs nowhere in the input text.
+    Path rule on the MIR of parse_grammar: (a) the occurrence test is a `contains`/`find` whose haystack is the
+    `input` parameter itself (not a slice or a cursor that shrinks); (b) every extension of `grammar.prefix` is followed
+    by that test again on all paths; (c) the successful return is reached only through the negative outcome of the
+    test and the prefix is not written afterwards."""
+    b = f.body("lalrpop::parser::parse_grammar")
+    if b is None:
+        rep.anchor_missing("parser::parse_grammar")
+        return
+    tests = []
+    for bi, t in b.calls():
+        c = core.callee_of(t) or ""
+        if not re.search(r"str::<impl str>::(contains|find|rfind|matches|match_indices)$", c) or len(t["args"]) < 2:
+            continue
+        needle = core.origins(b, t["args"][1], transparent=lambda c: "all" if c else None)
+        if not any("prefix" in d[2] for d in needle if d[0] in ("arg", "local", "call") and len(d) > 2 and isinstance(d[2], tuple)) and \
+           not any(e[0] == "field" and e[2] == "prefix" for dl in [core.op_local(t["args"][1])] if dl is not None for _, si, d in b.defs.get(dl, []) if si != "t" and d["r"]["k"] == "ref" for e in d["r"]["p"]["pr"]):
+            continue
+        hay = core.origins(b, t["args"][0], record_calls=True)
+        whole = bool(hay) and all(d[0] == "arg" and d[1] == 1 for d in hay)
+        tests.append((bi, t, whole, sorted({d[1] if d[0] == "call" else d[0] for d in hay if not (d[0] == "arg" and d[1] == 1)})))
+    rep.floor("occurrence tests of the prefix in parse_grammar", len(tests), 1)
+    good = [x for x in tests if x[2]]
+    for bi, t, whole, other in tests:
+        rep.ob("prefix.search-scans-whole-input", "parse_grammar line %d: haystack is %s" % (t["ln"], "the `input` parameter" if whole else "derived via %s" % other), whole,
+               "the uniqueness test for the generated-name prefix does not scan the whole grammar text (the haystack is a slice/cursor: %s): an occurrence of the "
+               "longer prefix that overlaps or precedes the position already scanned is missed, so a user identifier such as `____0` can equal a generated name" % other,
+               key="prefix-search:partial-haystack", file=b.relfile(), line=t["ln"], fn=b.path)
+    pushes = []
+    for bi, t in b.calls():
+        c = core.callee_of(t) or ""
+        if re.search(r"String::(push|push_str|insert|insert_str|extend|clear|truncate|pop)$", c) and t["args"]:
+            l = core.op_local(t["args"][0])
+            if any(si != "t" and d["r"]["k"] == "ref" and any(e[0] == "field" and e[2] == "prefix" for e in d["r"]["p"]["pr"]) for _, si, d in (b.defs.get(l, []) if l is not None else [])):
+                pushes.append((bi, t))
+    rep.floor("extensions of grammar.prefix in parse_grammar", len(pushes), 1)
+    gb = {x[0] for x in good}
+    for bi, t in pushes:
+        reach = b.reachable(b.succ[bi], removed_blocks=gb)
+        esc = [x for x in b.return_blocks() if x in reach]
+        rep.ob("prefix.retested-after-extension", "parse_grammar line %d: %s" % (t["ln"], core.callee_of(t)), bool(gb) and not esc,
+               "after the prefix is changed the function can return without testing the new prefix against the whole input", key="prefix-search:no-retest",
+               file=b.relfile(), line=t["ln"], fn=b.path)
+    # (c) Ok-return only through the negative edge of a whole-input test
+    okret = [bi for bi, _, s in b.stmts() if s["k"] == "assign" and s["p"]["l"] == 0 and not s["p"]["pr"] and s["r"]["k"] == "agg" and str(s["r"].get("variant")) in ("Ok", "0")]
+    neg_targets = set()
+    for bi, t, whole, _ in good:
+        sw = b.blocks[t["t"]]["t"] if t.get("t") is not None else None
+        if sw and sw["k"] == "switch" and core.op_local(sw["o"]) == t["dest"]["l"]:
+            neg_targets |= {x for v, x in sw["targets"] if v == 0}
+    for ob_ in set(okret):
+        dom = any(b.dominates(x, ob_) for x in neg_targets)
+        rep.ob("prefix.success-only-when-absent", "parse_grammar Ok-return block %d dominated by the `not found` edge of the test" % ob_, dom,
+               "parse_grammar can return a grammar without having established that its prefix occurs nowhere in the input", key="prefix-search:unguarded-return",
+               file=b.relfile(), line=b.line, fn=b.path)
+    rep.floor("Ok-returns of parse_grammar", len(set(okret)), 1)
